@@ -114,6 +114,139 @@ def _component(term, dur):
     return reads
 
 
+# ---- integer-arithmetic duration writer (total microseconds, divmod chain) ------------------------------------------
+US_PER = {"D": 86_400 * 1_000_000, "H": 3_600 * 1_000_000, "M": 60 * 1_000_000, "S": 1_000_000}
+
+
+def _lin(term, dt):
+    """Linear form {symbol: coefficient, 1: constant} of an integer expression over the timedelta's fields, or None."""
+    op = term[0]
+    if op == "const" and isinstance(term[1], int) and not isinstance(term[1], bool):
+        return {1: term[1]}
+    if op == "attr" and term[1] == dt and term[2] in ("days", "seconds", "microseconds"):
+        return {term[2]: 1}
+    if T.is_call_to(term, "builtins.getattr") and len(term[2]) == 3 and term[2][0] == dt and term[2][1][0] == "const" and term[2][2] == ("const", 0):
+        return {term[2][1][1]: 1}
+    if op == "binop" and term[1] in ("+", "-", "-=", "+="):
+        a, b = _lin(term[2], dt), _lin(term[3], dt)
+        if a is None or b is None:
+            return None
+        sgn = 1 if term[1] in ("+", "+=") else -1
+        out = dict(a)
+        for k, v in b.items():
+            out[k] = out.get(k, 0) + sgn * v
+        return {k: v for k, v in out.items() if v != 0}
+    if op == "binop" and term[1] == "*":
+        a, b = _lin(term[2], dt), _lin(term[3], dt)
+        if a is None or b is None:
+            return None
+        for x, y in ((a, b), (b, a)):
+            if set(x) <= {1}:
+                c = x.get(1, 0)
+                return {k: v * c for k, v in y.items() if v * c != 0}
+        return None
+    return None
+
+
+def _qty(term, dt):
+    if T.is_call_to(term, "builtins.abs") and len(term[2]) == 1:
+        inner = _qty(term[2][0], dt)
+        return None if inner is None else ("abs", inner)
+    if term[0] == "unpack" and term[3] == 2 and T.is_call_to(term[1], "builtins.divmod") and len(term[1][2]) == 2:
+        a = _qty(term[1][2][0], dt)
+        c = _lin(term[1][2][1], dt)
+        if a is None or c is None or set(c) != {1}:
+            return None
+        return ("div" if term[2] == 0 else "mod", a, c[1])
+    if term[0] == "binop" and term[1] in ("//", "%"):
+        a = _qty(term[2], dt)
+        c = _lin(term[3], dt)
+        if a is None or c is None or set(c) != {1}:
+            return None
+        return ("div" if term[1] == "//" else "mod", a, c[1])
+    lf = _lin(term, dt)
+    return None if lf is None else ("lin", tuple(sorted((str(k), v) for k, v in lf.items())))
+
+
+def _duration_writer_int(prog, rep, rule, only_coverage, f, iso, r, date_pairs, time_pairs, ok_shape):
+    q = iso.qualname
+    dt = ("param", f.params[0])
+    day = US_PER["D"]
+    base = {"days": day, "seconds": 1_000_000, "microseconds": 1}
+    cal = {"years": -365 * day, "months": -30 * day}
+
+    def total_ok(qt):
+        """abs(total) where total = (days*86400 + seconds)*10**6 + microseconds [- calendar units counted in days]."""
+        if qt is None or qt[0] != "abs" or qt[1][0] != "lin":
+            return False
+        lf = dict(qt[1][1])
+        core = {k: lf.get(k) for k in base}
+        extra = {k: v for k, v in lf.items() if k not in base}
+        return core == base and all(k in cal and v == cal[k] for k, v in extra.items())
+
+    comps = {des: _qty(c, dt) for c, des in date_pairs if des == "D"}
+    tcomps = {}
+    sec_term = None
+    for c, des in time_pairs:
+        if des == "S":
+            sec_term = c
+        else:
+            tcomps[des] = _qty(c, dt)
+    d = comps.get("D")
+    cov = d is not None and d[0] == "div" and d[2] == day and total_ok(d[1])
+    rep.check(cov, rule, q, f.loc, "the day count is the whole-day quotient of the exact microsecond total (days*86400e6 + seconds*1e6 + microseconds)", "the day component is not the quotient of the full microsecond total by one day: part of the value is dropped or mis-scaled", detail="coverage")
+    if only_coverage:
+        return
+    rep.check(ok_shape, "R04.2", q, f.loc, "each part is rendered as <component><designator> and omitted when zero", detail="part-shape")
+    # the divmod chain: every remainder feeds the next smaller unit
+    mag = d[1] if cov else None
+    r1 = ("mod", mag, day)
+    want = {"H": ("div", r1, US_PER["H"]), "M": ("div", ("mod", r1, US_PER["H"]), US_PER["M"])}
+    r3 = ("mod", ("mod", r1, US_PER["H"]), US_PER["M"])
+    for des in ("H", "M"):
+        got = tcomps.get(des)
+        rep.check(cov and got == want[des], "R04.2", q, f.loc, f"time component {des!r} is the quotient of the previous remainder by its unit", f"time component {des!r} is not remainder // {US_PER[des]} of the chain (unit arithmetic of the duration writer is off)", detail=f"time-{des}-chain")
+    # seconds with the fraction
+    s_whole, s_frac = ("div", r3, US_PER["S"]), ("mod", r3, US_PER["S"])
+    ok_s = frac_ok = False
+    if sec_term is not None and cov:
+        if sec_term[0] == "ifexp" and _qty(sec_term[1], dt) == s_frac and _qty(sec_term[3], dt) == s_whole and sec_term[2][0] == "fstr":
+            parts = sec_term[2][1]
+            if len(parts) == 3 and parts[0][0] == "fmt" and _qty(parts[0][1], dt) == s_whole and parts[1] == ("const", ".") and parts[2][0] == "fmt" and _qty(parts[2][1], dt) == s_frac:
+                ok_s = True
+                spec = parts[2][3]
+                frac_ok = spec is not None and spec[0] == "fstr" and len(spec[1]) == 1 and spec[1][0][0] == "const" and spec[1][0][1] in ("06", "06d", "0>6", "0>6d")
+        elif _qty(sec_term, dt) == s_whole:
+            ok_s = True  # no fraction written at all: judged below
+    rep.check(ok_s, "R04.2", q, f.loc, "the seconds component is <whole seconds>[.<microseconds>] of the last remainder", "the seconds component is not built from the last remainder's quotient and remainder by 10**6", detail="time-S-chain")
+    rep.check(frac_ok, "R04.2", q, f.loc, "fractional seconds are zero-padded to 6 digits", "microseconds are not rendered as a zero-padded 6-digit fraction after the whole seconds (1 µs would read as 0.1 s)", detail="fraction")
+    # designators and order
+    for label, pairs, order in (("date", date_pairs, ORDER[0]), ("time", time_pairs, ORDER[1])):
+        last = -1
+        for comp, des in pairs:
+            pos = order.find(des)
+            rep.check(pos > last, "R04.2", q, f.loc, f"designator {des!r} in ISO order within the {label} part", f"designator {des!r} out of ISO order in the {label} part", detail=f"{label}-order-{des}")
+            last = max(last, pos)
+    for c, des in date_pairs:
+        if des in ("Y", "M"):
+            want_sym = "years" if des == "Y" else "months"
+            rep.check(_qty(c, dt) == ("abs", ("lin", ((want_sym, 1),))), "R04.2", q, f.loc, f"date component {want_sym} carries designator {des!r}", f"designator {des!r} of the date part is not the magnitude of {want_sym}", detail=f"date-{des}-{want_sym}")
+    # one sign for the whole duration, decided on the same total the magnitude is taken of
+    parts = r[1]
+    sign = parts[0] if parts and parts[0][0] == "fmt" else None
+    sign_ok = False
+    if sign is not None and sign[1][0] == "ifexp" and sign[1][2] == ("const", "-") and sign[1][3] == ("const", ""):
+        for x in T.walk(sign[1][1]):
+            if x[0] == "cmp" and x[1] == "<" and x[3] == ("const", 0):
+                lf = _lin(x[2], dt)
+                if lf is not None and total_ok(("abs", ("lin", tuple(sorted((str(k), v) for k, v in lf.items()))))):
+                    sign_ok = True
+    rep.check(sign_ok and cov, "R04.2", q, f.loc, "a negative duration is written as one leading '-' and the magnitude of the total", "the writer does not take the sign out of the total: a negative timedelta is rendered with a sign on every component ('PT-1S', 'PT0.-00001S'), which no ISO-8601 reader accepts", detail="sign")
+    consts = [x[1] for x in parts if x[0] == "const"]
+    if consts == ["P", "T"]:
+        rep.violated("R04.2", q, f.loc, "the time designator 'T' is written even when no time component follows: a zero duration renders 'PT' and whole days 'P1DT'", detail="T-unconditional")
+
+
 def duration_writer(prog: Program, rep: Report, rule="R04.2", only_coverage=False):
     # the duration writer is whichever serdes function returns the f-string that opens with the 'P' designator
     f = None
@@ -126,7 +259,7 @@ def duration_writer(prog: Program, rep: Report, rule="R04.2", only_coverage=Fals
         except AnalysisError:
             continue
         for p, r in P.returns(cps):
-            if r[0] == "fstr" and r[1] and r[1][0] == ("const", "P"):
+            if r[0] == "fstr" and r[1] and (r[1][0] == ("const", "P") or (len(r[1]) > 1 and r[1][0][0] == "fmt" and r[1][1][0] == "const" and str(r[1][1][1]).startswith("P"))):
                 f, target = cand, (p, r)
     if target is None:
         iso = prog.function(f"{C.SERDES}.isoformat")
@@ -141,8 +274,15 @@ def duration_writer(prog: Program, rep: Report, rule="R04.2", only_coverage=Fals
     q = iso.qualname
     p, r = target
     parts = r[1]
-    joins = [(i, _join_parts(x[1])) for i, x in enumerate(parts) if x[0] == "fmt"]
+    joins = [(i, _join_parts(x[1])) for i, x in enumerate(parts) if x[0] == "fmt" and _join_parts(x[1]) is not None]
     consts = [(i, x[1]) for i, x in enumerate(parts) if x[0] == "const"]
+    if len(joins) == 2 and [c[1] for c in consts] == ["P", "T"]:
+        allc = [c for c, _ in joins[0][1][0] + joins[1][1][0]]
+        if not any(T.contains(c, lambda x: x[0] == "attr" and x[2] in ("remaining_days", "remaining_seconds", "weeks", "hours", "minutes")) for c in allc):
+            # components are computed by integer arithmetic on the timedelta's own fields
+            (dp, ok1, c1), (tp, ok2, c2) = joins[0][1], joins[1][1]
+            _duration_writer_int(prog, rep, rule, only_coverage, f, iso, r, dp, tp, ok1 and ok2 and c1 and c2)
+            return
     if len(joins) != 2 or any(j[1] is None for j in joins) or [c[1] for c in consts] != ["P", "T"]:
         rep.undecided(rule, q, f.loc, "duration writer shape outside the idiom set: " + T.show(r)[:200])
         return
@@ -191,6 +331,10 @@ def duration_writer(prog: Program, rep: Report, rule="R04.2", only_coverage=Fals
     rep.check(cov_ok, rule, q, f.loc, "duration writer covers pendulum's weeks/remaining_days decomposition", "duration writer drops part of the value: " + why, detail="coverage")
     if only_coverage:
         return
+    # pendulum's components carry the sign individually: unless the writer takes the sign out first, every component of a
+    # negative duration is signed
+    sign_handled = any(T.contains(tm, lambda x: T.is_call_to(x, "builtins.abs") or (x[0] == "cmp" and x[1] in ("<", ">", "<=", ">=") and (x[3] == ("const", 0) or T.is_call_to(x[3], "datetime.timedelta")))) for pth in P.paths_of(prog, f) for tm in pth.all_terms())
+    rep.check(sign_handled, "R04.2", q, f.loc, "the sign is taken out of the duration before its components are written", "the writer formats pendulum's components as they are, and each of them is signed for a negative duration: timedelta(seconds=-1) renders 'PT-1S', timedelta(microseconds=-1) 'PT0.-00001S' — no ISO-8601 reader (the library's own included) accepts that", detail="sign")
     rep.check(ok1 and ok2 and c1 and c2, "R04.2", q, f.loc, "each part is rendered as <component><designator> and omitted when zero", detail="part-shape")
     # designators and order
     for label, pairs, table, order in (("date", date_pairs, DATE_DESIG, ORDER[0]), ("time", time_pairs, TIME_DESIG, ORDER[1])):
@@ -443,6 +587,33 @@ def r04_11(prog: Program, rep: Report):
     rep.check(exact_seen and not lossy_first, "R04.11", f.qualname, f.loc, "the text of a time / datetime is first read with the inverse of its writer (fromisoformat)", f"dateparse hands the text straight to {sorted(set(lossy_first))[:1]}, which {oracle.LOSSY_PARSERS.get(lossy_first[0], '') if lossy_first else ''}: time(1, 2, 3, tzinfo=+05:30) is written '01:02:03+05:30' and read back at UTC; an offset with seconds ('+00:09:21', what zoneinfo gives for 1900) is rejected", detail="inverse-first")
 
 
+def r04_12(prog: Program, rep: Report, urows, pe):
+    """Durations are exact to the microsecond on the read side too: (a) the reader takes a leading sign off the text before
+    the third-party parser sees it (the writer emits one; pendulum reads none); (b) the routine does not rebuild the result
+    through the float total_seconds() (53 bits: microseconds are lost beyond 2**33 seconds)."""
+    f = prog.function(f"{C.SERDES}.dateparse")
+    val = ("param", f.params[0])
+    tparam = ("param", f.params[1]) if len(f.params) > 1 else None
+    signed = False
+    for p in P.paths_of(prog, f):
+        gs = [g for g, pol in p.guards() if pol]
+        is_td = any(T.contains(g, lambda x: T.is_call_to(x, "builtins.issubclass") and x[2][:1] == (tparam,) and T.contains(x[2][1], lambda y: T.refname(y) == "datetime.timedelta")) for g in gs)
+        looks_at_sign = any(T.contains(g, lambda x: (x[0] == "sub" and x[1] == val) or (x[0] == "call" and x[1][0] == "attr" and x[1][1] == val and x[1][2] == "startswith")) for g in gs)
+        if is_td and looks_at_sign:
+            signed = True
+    rep.check(signed, "R04.12", f.qualname, f.loc, "a signed duration text is taken apart (sign, magnitude) before the ISO parser reads the magnitude", "dateparse passes duration text to the parser as is; the parser accepts no sign, so the text the writer emits for every negative timedelta cannot be read back (ParserError)", detail="reader-sign")
+    k, r = C.route(prog, pe, urows, C.TypeArg("datetime.timedelta"))
+    if k != "row" or r.routine is None:
+        rep.undecided("R04.12", "unmarshal:timedelta", "", "timedelta routine not found", detail="exact-rebuild")
+        return
+    cf = C.call_of(prog, r.routine)
+    floaty = []
+    for p, ret in P.returns(P.paths_of(prog, cf)):
+        if T.contains(ret, lambda x: x[0] == "call" and x[1][0] == "attr" and x[1][2] == "total_seconds") and not any(T.is_call_to(g, "builtins.isinstance") and pol and T.contains(g[2][1], lambda y: T.refname(y) in ("builtins.int", "builtins.float")) for g, pol in p.guards()):
+            floaty.append(T.show(ret)[:80])
+    rep.check(not floaty, "R04.12", r.routine.qualname, cf.loc, "a parsed duration is rebuilt from whole microseconds / exact fields, not from float seconds", f"the parsed duration is rebuilt through total_seconds() ({floaty[0] if floaty else ''}): a float has 53 bits, so beyond 2**33 seconds (about 272 years) microseconds come back wrong — 'P99420DT12H56M32.000001S' reads back as …000002", detail="exact-rebuild")
+
+
 def r04_9(prog: Program, rep: Report):
     """unixtime(): durations -> total_seconds(); times -> today in the value's own zone with all four clock fields;
     parser normalisation tests the narrower class first (datetime before date)."""
@@ -541,6 +712,8 @@ def run(prog: Program, rep: Report, tier: str):
     r04_1(prog, rep)
     duration_writer(prog, rep)
     r04_3_4(prog, rep, pe, urows)
+    rep.rule("R04.12", "durations are read back exactly: signed text taken apart, no float rebuild", floor=2)
+    r04_12(prog, rep, urows, pe)
     r04_5(prog, rep, pe, urows)
     r04_6(prog, rep, pe, urows)
     r04_8(prog, rep, pe, urows)
